@@ -377,6 +377,221 @@ class LinkTrekker:
         self.bump(k, k)
 '''
 
+# round 3: try / except Exception [as e] / [finally] (PySem.py_try), len(<set>) == 0
+SRC_TRY = '''
+def try_swallow(a: Tuple[str, ...], i: int) -> str:
+    r = "none"
+    try:
+        r = a[i]
+    except Exception as e:
+        r = "caught"
+    return r
+
+
+def try_state_at_raise(a: Tuple[str, ...], i: int) -> int:
+    n = 0
+    try:
+        n = n + 1
+        x = a[i]
+        n = n + 10
+        if x == "a":
+            return n
+        n = n + 100
+    except Exception:
+        n = n + 1000
+    finally:
+        n = n + 5
+    return n
+
+
+def try_reraise(a: Tuple[str, ...], i: int) -> str:
+    try:
+        return a[i]
+    except Exception as e:
+        if i > 1:
+            raise
+        if i < 0:
+            raise KeyError(f"negative {e}")
+    return "swallowed"
+
+
+def try_effects(s: Set[UUID], t: Set[UUID], a: Tuple[str, ...], i: int) -> bool:
+    try:
+        s.update(t)
+        x = a[i]
+        if x == "a":
+            return True
+        s.difference_update(t)
+    except Exception as e:
+        t.update(s)
+        if len(a) == 0:
+            raise
+        if len(a) == 1:
+            raise KeyError(f"one {e}")
+    finally:
+        t.difference_update(s)
+    return False
+
+
+def try_finally_raises(a: Tuple[str, ...], i: int) -> str:
+    r = "x"
+    try:
+        r = a[i]
+        if r == "b":
+            return r
+    except Exception:
+        raise ValueError("handler")
+    finally:
+        if i == 0:
+            raise TypeError("finally wins")
+    return r
+
+
+def try_in_loop(a: Tuple[str, ...], b: Tuple[str, ...]) -> int:
+    n = 0
+    for x in a:
+        try:
+            y = b[len(x)]
+            if y == x:
+                return n
+            n = n + 1
+        except Exception:
+            n = n + 10
+        finally:
+            n = n + 100
+    return n
+
+
+def try_no_state(a: Tuple[str, ...], i: int) -> bool:
+    try:
+        if a[i] == "a":
+            return True
+    except Exception:
+        return i > 0
+    return False
+
+
+def empty_set(a: Set[UUID], b: Set[UUID]) -> bool:
+    c = a & b
+    if len(c) == 0:
+        return True
+    return len(a - b) > 0
+'''
+
+REFUSED_TRY = '''
+def r_try_bare(a: Tuple[str, ...]) -> str:
+    try:
+        return a[0]
+    except:
+        return ""
+
+
+def r_try_two_handlers(a: Tuple[str, ...]) -> str:
+    try:
+        return a[0]
+    except Exception:
+        return ""
+    except BaseException:
+        return "b"
+
+
+def r_try_tuple(a: Tuple[str, ...]) -> str:
+    try:
+        return a[0]
+    except (IndexError, KeyError):
+        return ""
+
+
+def r_try_else(a: Tuple[str, ...]) -> str:
+    try:
+        x = a[0]
+    except Exception:
+        return ""
+    else:
+        return "e"
+    return "x"
+
+
+def r_try_return_in_finally(a: Tuple[str, ...]) -> str:
+    try:
+        return a[0]
+    except Exception:
+        return ""
+    finally:
+        return "f"
+
+
+def r_try_no_handler(a: Tuple[str, ...]) -> str:
+    try:
+        return a[0]
+    finally:
+        pass
+
+
+def r_try_loop_inside(a: Tuple[str, ...]) -> int:
+    n = 0
+    try:
+        for x in a:
+            n = n + 1
+    except Exception:
+        n = 0
+    return n
+
+
+def r_try_nested(a: Tuple[str, ...]) -> str:
+    try:
+        try:
+            return a[0]
+        except Exception:
+            return a[1]
+    except Exception:
+        return ""
+
+
+def r_try_break(a: Tuple[str, ...]) -> int:
+    n = 0
+    for x in a:
+        try:
+            if x == "a":
+                break
+            n = n + 1
+        except Exception:
+            n = 0
+    return n
+
+
+def r_try_used_after(a: Tuple[str, ...]) -> str:
+    try:
+        x = a[0]
+    except Exception:
+        return ""
+    return x
+
+
+def r_try_narrow_state(a: Tuple[str, ...]) -> int:
+    pos = None
+    try:
+        pos = len(a)
+        if pos is None:
+            return 0
+    except Exception:
+        return 1
+    return 2
+
+
+def r_try_rebound_exception(a: Tuple[str, ...], Exception: int) -> str:
+    try:
+        return a[0]
+    except Exception:
+        return ""
+
+
+def r_raise_outside_handler(a: int) -> int:
+    if a > 0:
+        raise
+    return a
+'''
+
 REFUSED = '''
 from collections import OrderedDict, defaultdict
 from typing import Dict
@@ -522,6 +737,17 @@ GOOD2 = [
     Target("tagged", "selftest_src.py", None, "tagged", [("a", TS), ("b", TS), ("mode", "Optional[str]")],
            "Union[Set[str], List[str]]", defaults={"mode": "None"}),
 ]
+GOOD3 = [
+    T("try_swallow", [("a", TS), ("i", "int")], "str"), T("try_state_at_raise", [("a", TS), ("i", "int")], "int"),
+    T("try_reraise", [("a", TS), ("i", "int")], "str"), T("try_effects", [("s", SS), ("t", SS), ("a", TS), ("i", "int")], "bool"),
+    T("try_finally_raises", [("a", TS), ("i", "int")], "str"), T("try_in_loop", [("a", TS), ("b", TS)], "int"),
+    T("try_no_state", [("a", TS), ("i", "int")], "bool"), T("empty_set", [("a", SS), ("b", SS)], "bool"),
+]
+BAD_TRY = [(n, [("a", TS)], r) for n, r in (
+    ("r_try_bare", "str"), ("r_try_two_handlers", "str"), ("r_try_tuple", "str"), ("r_try_else", "str"),
+    ("r_try_return_in_finally", "str"), ("r_try_no_handler", "str"), ("r_try_loop_inside", "int"), ("r_try_nested", "str"),
+    ("r_try_break", "int"), ("r_try_used_after", "str"), ("r_try_narrow_state", "int"))] + [
+    ("r_try_rebound_exception", [("a", TS), ("Exception", "int")], "str"), ("r_raise_outside_handler", [("a", "int")], "int")]
 BAD = [("with_default", [("a", TS), ("x", "str")], "int"),       # a default value the target does not declare
        ("r_iter_built_set", [("a", TS)], "str"), ("r_defaultdict_read", [("a", TS)], "int"),
        ("r_store_then_mutate", [("a", SS), ("b", SS)], "bool"), ("r_dict_alias", [("a", TS)], "int"),
@@ -696,11 +922,11 @@ def main() -> int:
     (d / "src").mkdir(parents=True, exist_ok=True)
     fails = 0
     # ---- refused
-    (d / "src" / "selftest_src.py").write_text(REFUSED + SRC + SRC2)
+    (d / "src" / "selftest_src.py").write_text(REFUSED + REFUSED_TRY + SRC + SRC2 + SRC_TRY)
     py2coq.ROOT[0] = d / "src"
     py2coq._MODULES.clear()
     reserved = py2coq._model_globals()
-    for name, ps, r in BAD:
+    for name, ps, r in BAD + BAD_TRY:
         try:
             py2coq.Fn(T(name, ps, r), reserved).translate()
             print(f"NOT REFUSED: {name}")
@@ -711,9 +937,10 @@ def main() -> int:
     mod = types.ModuleType("selftest_src")
     exec(compile(SRC, "selftest_src", "exec"), mod.__dict__)
     exec(compile(SRC2, "selftest_src2", "exec"), mod.__dict__)
+    exec(compile(SRC_TRY, "selftest_src3", "exec"), mod.__dict__)
     out = [py2coq.PRELUDE, "Open Scope string_scope.\nOpen Scope list_scope.\nOpen Scope Z_scope.\n"]
     checks = []
-    for t in GOOD + GOOD2:
+    for t in GOOD + GOOD2 + GOOD3:
         f = py2coq.Fn(t, reserved)
         out.append(f.translate())
         mutated = f.mutated
